@@ -22,15 +22,25 @@
     their arguments), and the final world is the same.  By induction this extends to any number of
     refused calls: two schedules that differ only in when refusals happen produce the same
     outputs, handler invocations and final state.
-  NOT proved in Lean: the comparison of schedules that differ in *which call* delivers a given
-  input byte while the other machine has work to do (then the interleaving of the two machines'
-  steps differs, although each machine's own sequence does not) — sampled by the twin-run oracle
-  (tools/families.py, meta_C12), which compares an eager run with randomly scheduled ones.
+  * `C12_schedule_independent` (`Proofs/Sched.lean`): **the command machine under any schedule** —
+    a schedule decides call by call whether the next input byte is offered and whether the output
+    accepts; handler answers constant.  Every call is either a pure refusal (nothing changes but the
+    refusal is logged) or exactly the call of the eager schedule (`C12_slot_step`: input readiness is
+    irrelevant outside the reading states, output readiness outside FLUSH_IO_WRITE and at a
+    terminator); hence the run reaches the state of an eager run of at most as many calls, leaves the
+    same input unconsumed and produces the same events other than refusals — the same bytes consumed,
+    the same bytes accepted by the output, the same handler and callback invocations with the same
+    arguments.  `C12_alone`: with the unsolicited machine idle and its queue empty this is the whole
+    of `cat_service`.
+  NOT proved in Lean: schedules while the unsolicited machine has work to do (then the interleaving
+  of the two machines' steps legitimately depends on the schedule, although each machine's own
+  sequence does not) — sampled by the twin-run oracles (tools/families.py, meta_C12).
 -/
 import CatVerif.Proofs.Quiesce
 import CatVerif.Proofs.Log
 import CatVerif.Proofs.Stutter
 import CatVerif.Proofs.DispatchIO
+import CatVerif.Proofs.Sched
 import CatVerif.Proofs.Steps
 namespace Cat
 open St
@@ -127,5 +137,30 @@ example : ∃ (s : St) (i : SvcIn), s.state = .flushWrite ∧ i.wr = false ∧ (
 nothing; an accepted byte is stored and, outside argument collection, case-folded — is, in the model,
 the function whose statements are re-recognised in the source on every run (translator item T14) -/
 theorem C12_read_generated : readCmdChar = Gen.read_cmd_char := readCmdChar_generated
+
+/-- one call under a schedule: a pure refusal, or the eager schedule's call -/
+theorem C12_slot_step (D : Desc) (tmpl : SvcIn) (s : St) (q : List Byte) (sl : Slot) (hs0 : s.log = []) (hf : fetchOk D s sl = true) :
+    ((∃ e, isRefusal e = true ∧ (commandService D s (slotIn tmpl q sl)).1 = { s with log := [e] }) ∧
+      ¬ (Reading s.state ∧ (slotIn tmpl q sl).rd.isSome)) ∨
+    (commandService D s (slotIn tmpl q sl) = commandService D s (slotIn tmpl q eager) ∧
+      ((Reading s.state ∧ (slotIn tmpl q sl).rd.isSome) ↔ (Reading s.state ∧ (slotIn tmpl q eager).rd.isSome))) :=
+  slot_step D tmpl s q sl hs0 hf
+
+/-- **Schedule independence of the command machine.** -/
+theorem C12_schedule_independent (D : Desc) (tmpl : SvcIn) (σ : List Slot) (s : St) (q : List Byte)
+    (hin : (runS D tmpl s q σ).2.2.2 = true) :
+    ∃ n, n ≤ σ.length ∧
+      SameButLog (runS D tmpl s q (List.replicate n eager)).1 (runS D tmpl s q σ).1 ∧
+      (runS D tmpl s q (List.replicate n eager)).2.1 = (runS D tmpl s q σ).2.1 ∧
+      realEvents (runS D tmpl s q (List.replicate n eager)).2.2.1 = realEvents (runS D tmpl s q σ).2.2.1 :=
+  runS_eager D tmpl σ s q hin
+
+theorem C12_alone (D : Desc) (s : St) (i : SvcIn) (hu : s.ustate = .idle) (hc : s.rcount = 0) :
+    (serviceBody D s i).1 = (commandService D s i).1 :=
+  serviceBody_alone D s i hu hc
+
+/-- non-vacuity: a schedule that withholds the input once and then offers it, run on `AT` LF -/
+example : (runS default {} (init default [] [] []) [65, 84, 10]
+    [⟨false, true⟩, ⟨true, false⟩, ⟨true, true⟩, ⟨false, false⟩, ⟨true, true⟩]).2.2.2 = true := by decide
 
 end Cat
